@@ -181,6 +181,11 @@ func (e *fnEnv) classify(x ast.Expr) prov {
 			if freshCallee(f.Sel.Name) {
 				return pFresh
 			}
+			// binary.*.AppendUintNN(b, v), hex.AppendEncode(b, src), strconv.AppendInt(b, …), fmt.Appendf(b, …):
+			// like the append builtin, the result is (an extension of) the first argument
+			if strings.HasPrefix(f.Sel.Name, "Append") && len(v.Args) > 0 {
+				return e.classify(v.Args[0])
+			}
 		case *ast.ArrayType:
 			if len(v.Args) == 1 {
 				if bt, ok := e.info.Types[v.Args[0]]; ok {
@@ -448,6 +453,13 @@ func extractSites(pkgs []*packages.Package) []byte {
 							if strings.HasPrefix(f.Sel.Name, "PutUint") && len(s.Args) > 0 {
 								wsites = append(wsites, wsite{rel, fn, "put", env.classify(s.Args[0]).String()})
 							}
+							if strings.HasPrefix(f.Sel.Name, "Append") && len(s.Args) > 0 {
+								if t, ok := p.TypesInfo.Types[s.Args[0]]; ok {
+									if _, isSlice := t.Type.Underlying().(*types.Slice); isSlice {
+										wsites = append(wsites, wsite{rel, fn, "append", env.classify(s.Args[0]).String()})
+									}
+								}
+							}
 						}
 					case *ast.AssignStmt:
 						for _, l := range s.Lhs {
@@ -630,6 +642,12 @@ func packageStateWrites(pkgs []*packages.Package) [][3]string {
 								out = append(out, [3]string{rel, fn, "&" + v})
 							}
 						}
+					case *ast.SliceExpr:
+						// slicing a package-level array or slice hands out a writable view of package memory (scratch buffers
+						// passed to Sum / Read / append …)
+						if v, ok := isPkgVar(s.X); ok {
+							out = append(out, [3]string{rel, fn, v + "[:]"})
+						}
 					case *ast.CallExpr:
 						// pointer-receiver methods on a package-level variable (sync.Pool.Get/Put, Once.Do, map/cache objects …)
 						if sel, ok := s.Fun.(*ast.SelectorExpr); ok {
@@ -674,6 +692,8 @@ func optionsHiddenFields(pkgs []*packages.Package) [][2]string {
 			}
 		}
 	}
+	// by name: the order of declaration is not state
+	sort.Slice(out, func(i, j int) bool { return out[i][0] < out[j][0] })
 	return out
 }
 
